@@ -43,6 +43,13 @@ INFO = {
  'C25-8': ('C25', 'ManifestSwitch arm of decode_body computes 12 + count * 16 in u32 before widening', 'a crafted type-9 record with a valid CRC and a count >= 2^28: multiply overflow panic (debug) or wrap-around, 4 GiB reservation and out-of-bounds slice (release)'),
  'C27-5': ('C27', 'float zero normalisation becomes f.abs() < f64::MIN_POSITIVE', 'subnormal floats: every subnormal gets the key of 0.0, order and equality lost'),
  'C27-6': ('C27', 'encode_index_key appends the node id with to_le_bytes', 'two entries of the same index and value with a node id >= 256: entries of one value are no longer ordered by node id (value order, equality and prefix-freedom - the stated property - still hold; kept because the composite key format is now under contract)'),
+ 'C20-6': ('C20', 'execute_order_by resolves the sort direction once, from the first sort item, and applies it to every key', 'two or more sort keys whose directions differ and rows that tie on the earlier keys: the later key is sorted in the direction of the first'),
+ 'C20-7': ('C20', 'compare_lists_ordering returns the length comparison first whenever two lists differ in length', 'list-valued sort keys of different lengths where the shorter is not a prefix of the longer: [2] sorts before [1, 2]'),
+ 'C23-6': ('C23', 'cypher_equals compares two Floats with total_cmp after the NaN guard', '0.0 = -0.0 (both Float): false although <= and >= are both true; = is no longer transitive through Int 0'),
+ 'C23-7': ('C23', 'the Negate arm of evaluate_expression_value returns null instead of the Float fallback when the operand is i64::MIN', 'unary minus applied to an Int that evaluates to exactly i64::MIN: -m is null while 0 - m and m * -1 are 9.223372036854775808e18'),
+ 'C28-7': ('C28', 'BTree::mark_reachable_pages marks the right sibling of a leaf directly instead of queueing it; the already-marked guard then skips its payloads', 'a payload-carrying tree with more than one leaf (property store with more than ~350 properties): blob chains behind every second leaf are dropped'),
+ 'C28-8': ('C28', 'vacuum::mark_reachable_pages shares one payload buffer between the catalog loop and the property-store walk and forgets to clear it', 'a stored vector, properties_root != 0 and no index name sorting after __sys_hnsw_vec: the vacuum fails with cycle detected in blob chain'),
+ 'C28-9': ('C28', 'scan_wal_roots stops at the first transaction that carries a manifest (scanning from the oldest)', 'two or more manifest records in the WAL (two compactions since the last checkpoint rewrite): newer segments and the current statistics blob are dropped, open fails'),
  'C18-1': ('C18', 'Pager keeps an in-memory free list that allocate_page pops before scanning the bitmap; ensure_allocated never removes from it', 'a page is freed, the node table (length a multiple of 512) grows in place into it, then another structure allocates: allocate_page returns an allocated page'),
  'C18-2': ('C18', 'make_room_for_next_record updates self.i2e_start itself and returns (); the caller keeps writing at the start page it read before the call (two cooperating sites)', 'a relocation of the node table (length a non-zero multiple of 512 and the next page taken): record 512 is written into the neighbouring structure\'s page'),
  'C18-3': ('C18', 'BlobStore::write_direct lays the chain out front to back at first, first+1, ... instead of at the pages it allocated', 'a blob longer than one page whose first page is a hole with an allocated right-hand neighbour'),
